@@ -66,7 +66,7 @@ PROFILES = {
     "C08": _merge(BASE, {"mut": {"ADD_OP": 48, "ADD_SUB": 14, "APPLY": 8, "FLATTEN": 3, "COPY": 3, "NEW_LIB": 2},
                          "obs": {"STIM": 20, "LIST": 4, "FULL": 4, "PLOT": 0, "OPENQL": 0},
                          "all_kinds": True, "p_reps": 0.5, "flt": {"SINK_FAIL": 2}, "class": {"mut": 60, "obs": 33, "flt": 7}}),
-    "C11": _merge(BASE, {"mut": {"ADD_OP": 44, "ADD_SUB": 16, "APPLY": 6, "FLATTEN": 12, "COPY": 1, "NEW_LIB": 3},
+    "C11": _merge(BASE, {"p_flatten_fail": 0.2, "mut": {"ADD_OP": 44, "ADD_SUB": 16, "APPLY": 6, "FLATTEN": 12, "COPY": 1, "NEW_LIB": 3},
                          "obs": {"FULL": 8, "LIST": 6, "TIMES": 6, "ACQ": 3, "STIM": 4, "PLOT": 0, "OPENQL": 0},
                          "p_rel": 0.0, "flt": {"SINK_FAIL": 0}, "class": {"mut": 62, "obs": 32, "flt": 6}}),
     "C15": _merge(BASE, {"mut": {"ADD_OP": 48, "ADD_SUB": 12, "APPLY": 5, "FLATTEN": 2, "COPY": 1, "NEW_LIB": 1},
@@ -410,7 +410,11 @@ class Gen:
             return False
         name = self.force.pop("handle", None) or self.rng.choice(hs)
         as_name = self.fresh(s)
-        self.emit({"s": s, "op": "FLATTEN", "c": name, "as": as_name})
+        st = {"s": s, "op": "FLATTEN", "c": name, "as": as_name}
+        if not self.fault_free and self.rng.random() < self.P.get("p_flatten_fail", 0.06) and self.model.leaf_count(name) >= 2:
+            # fault: the n-th re-placement inside the rebuild raises (the generator cannot know whether n is reached)
+            st["fail"] = self.rng.randint(1, max(1, self.model.leaf_count(name)))
+        self.emit(st)
         self._model_flatten(name, as_name)
         self.sess_handles[s].append(as_name)
         if name in self.decl:
